@@ -16,6 +16,7 @@ File-system operations that count as crash points (one op index each, in program
 effect, nothing after).  Crash "after" op i is crash before op i+1; crash_at >= #ops is normal
 completion.  When the process dies, the last `lost` chunks still sitting in the user-space buffer of
 an open handle (written since the last flush) do not reach the disk.
+A path maps to an inode; an open handle keeps writing into its inode across rename / unlink (POSIX).
 After the crash the model is frozen: the `with` block's close() that Python runs while the Crash
 exception unwinds has no effect (a dead process closes nothing).
 """
@@ -308,10 +309,6 @@ def _os_shim(fs):
                  splitext=_real_os.path.splitext)
     return _Shim(fs, 'os', rename=fs.rename, replace=fs.rename, remove=fs.remove, unlink=fs.remove,
                  fsync=fs.fsync, path=path, fspath=_real_os.fspath, sep=_real_os.sep, linesep=_real_os.linesep)
-
-
-_DIRECT = {  # `from os import rename` style bindings, keyed by the real object
-}
 
 
 def _direct_map(fs):
